@@ -117,7 +117,7 @@ theorem checkRoom_no_crash (r : RoomMsg) (site : String) : checkRoom Fc r ≠ .c
     · exact checkFederation_no_crash _ _
     · simp
 
-theorem checkMessageMsg_no_crash (m : MessageMsg) (site : String) : checkMessageMsg m ≠ .crash site := by
+theorem checkMessageMsg_no_crash (m : MessageMsg) (site : String) : checkMessageMsg Fc m ≠ .crash site := by
   unfold checkMessageMsg; repeat (first | split | simp [invalid])
 
 theorem checkControl_no_crash (m : MessageMsg) (site : String) : checkControl Fc m ≠ .crash site := by
@@ -130,8 +130,10 @@ theorem checkCommon_no_crash (c : Common) (site : String) : checkCommon c ≠ .c
 
 theorem checkAdd_no_crash (a : AddSession) (site : String) : checkAdd Fc a ≠ .crash site := by
   unfold checkAdd; split
-  · exact checkCommon_no_crash _ _
-  · simp
+  · simp [invalid]
+  · split
+    · exact checkCommon_no_crash _ _
+    · simp
 
 theorem checkUpd_no_crash (a : UpdateSession) (site : String) : checkUpd Fc a ≠ .crash site := by
   unfold checkUpd; split
@@ -169,7 +171,7 @@ theorem checkInternal_no_crash (i : Internal) (site : String) : checkInternal Fc
     · exact checkField_no_crash _ _ _ _ _ _ hr (by simp) h
     · exact checkField_no_crash _ _ _ _ _ _ hr (fun a s => checkDialout_no_crash a s) h
 
-theorem checkTransient_no_crash (t : Transient) (site : String) : checkTransient t ≠ .crash site := by
+theorem checkTransient_no_crash (t : Transient) (site : String) : checkTransient Fc t ≠ .crash site := by
   unfold checkTransient; repeat (first | split | simp [invalid])
 
 /-- `CheckValid` itself never panics: every sub-object it validates is first compared with nil. -/
@@ -198,10 +200,10 @@ theorem checkValid_no_crash (m : ClientMessage) (site : String) : checkValid Fc 
 theorem checkValid_ok_fields {m : ClientMessage} (h : checkValid Fc m = .ok) :
     checkField Fc "ClientMessage" m.mtype "Hello" m.hello (checkHello Fc) = .ok ∧
     checkField Fc "ClientMessage" m.mtype "Room" m.room (checkRoom Fc) = .ok ∧
-    checkField Fc "ClientMessage" m.mtype "Message" m.message checkMessageMsg = .ok ∧
+    checkField Fc "ClientMessage" m.mtype "Message" m.message (checkMessageMsg Fc) = .ok ∧
     checkField Fc "ClientMessage" m.mtype "Control" m.control (checkControl Fc) = .ok ∧
     checkField Fc "ClientMessage" m.mtype "Internal" m.internal (checkInternal Fc) = .ok ∧
-    checkField Fc "ClientMessage" m.mtype "TransientData" m.transient checkTransient = .ok := by
+    checkField Fc "ClientMessage" m.mtype "TransientData" m.transient (checkTransient Fc) = .ok := by
   unfold checkValid at h
   split at h
   · simp [invalid] at h
@@ -224,7 +226,7 @@ theorem valid_room {m : ClientMessage} (h : checkValid Fc m = .ok) (ht : m.mtype
   exact ⟨r, hr, checkField_ok_sub (by decide) h2⟩
 
 theorem valid_message {m : ClientMessage} (h : checkValid Fc m = .ok) (ht : m.mtype = "message") :
-    ∃ r, m.message = some r ∧ checkMessageMsg r = .ok := by
+    ∃ r, m.message = some r ∧ checkMessageMsg Fc r = .ok := by
   have h2 := (checkValid_ok_fields h).2.2.1
   rw [ht] at h2
   obtain ⟨r, hr⟩ := Option.isSome_iff_exists.mp (checkField_ok_some (by decide) h2)
@@ -248,7 +250,7 @@ theorem valid_internal {m : ClientMessage} (h : checkValid Fc m = .ok) (ht : m.m
   exact ⟨r, hr, checkField_ok_sub (by decide) h2⟩
 
 theorem valid_transient {m : ClientMessage} (h : checkValid Fc m = .ok) (ht : m.mtype = "transient") :
-    ∃ r, m.transient = some r ∧ checkTransient r = .ok := by
+    ∃ r, m.transient = some r ∧ checkTransient Fc r = .ok := by
   have h2 := (checkValid_ok_fields h).2.2.2.2.2
   rw [ht] at h2
   obtain ⟨r, hr⟩ := Option.isSome_iff_exists.mp (checkField_ok_some (by decide) h2)
@@ -347,5 +349,35 @@ theorem room_federation {r : RoomMsg} {f : Federation} (h : checkRoom Fc r = .ok
   split at h
   · simp [invalid] at h
   · rename_i hs; simpa using hs
+
+/-! ### raw members that are sent on are valid JSON -/
+
+theorem message_data_valid {mm : MessageMsg} (h : checkMessageMsg Fc mm = .ok) : mm.dataValid = true := by
+  unfold checkMessageMsg at h
+  have hr : rawChecked Fc "MessageClientMessage" "Data" = true := by decide
+  split at h
+  · simp [invalid] at h
+  · split at h
+    · simp [invalid] at h
+    · rename_i h2
+      cases hd : mm.dataValid with
+      | true => rfl
+      | false => exact absurd ⟨hr, by simp [hd]⟩ h2
+
+theorem control_data_valid {mm : MessageMsg} (h : checkControl Fc mm = .ok) : mm.dataValid = true := by
+  unfold checkControl at h
+  have ht : tbl Fc "ControlClientMessage" "*" "MessageClientMessage" "sub" = true := by decide
+  rw [if_pos ht] at h
+  exact message_data_valid h
+
+theorem transient_value_valid {t : Transient} (h : checkTransient Fc t = .ok) : t.valueValid = true := by
+  unfold checkTransient at h
+  have hr : rawChecked Fc "TransientDataClientMessage" "Value" = true := by decide
+  split at h
+  · simp [invalid] at h
+  · rename_i h2
+    cases hd : t.valueValid with
+    | true => rfl
+    | false => exact absurd ⟨hr, by simp [hd]⟩ h2
 
 end SigModel.ShapesClient
